@@ -32,7 +32,7 @@ prop("C01",
       fam("dfs-cancel","H",200000), fam("evict","L",20000,"monitor"), fam("stream","H",20000,"monitor"), fam("expiry","L",20000,"monitor"), fam("mix","L",20000,"monitor"), fam("fine-nolimit","H",40000,"monitor"), fam("fine-nolimit","L",40000,"monitor"), fam("fine-mix","H",40000,"monitor")],
      cosim_ignore="order,stamp")
 prop("C02",
-     ["C02_only_guard_ops_change_values", "C02_guard_op_is_local", "C02_new_guard_shows_stored_value", "C02_witness"],
+     ["C02_only_guard_ops_change_values", "C02_guard_op_is_local", "C02_new_guard_shows_stored_value", "C02_value_history", "C02_next_guard_sees_what_was_left", "C02_witness"],
      ["C02."],
      [fam("nolimit","H",1500), fam("nolimit","L",1500), fam("dfs-lock2","L",4000), fam("evict","H",800,"monitor"), fam("stream","L",800,"monitor"), fam("mix","L",800,"monitor"), fam("scale","L",2,"monitor"), fam("fine-nolimit","L",2000,"monitor"), fam("fine-mix","H",2000,"monitor")],
      [fam("nolimit","H",40000), fam("nolimit","L",40000), fam("dfs-lock2","L",200000), fam("dfs-lock3","H",200000), fam("evict","H",20000,"monitor"), fam("stream","L",20000,"monitor"), fam("mix","L",20000,"monitor"), fam("scale","L",16,"monitor"), fam("scale","H",16,"monitor"), fam("fine-nolimit","L",40000,"monitor"), fam("fine-nolimit","H",40000,"monitor"), fam("fine-mix","H",40000,"monitor"), fam("fine-mix","L",40000,"monitor")],
